@@ -403,6 +403,12 @@ class FuncEmitter:
             if v < 0:
                 return '(-(s128)%s - 1)' % ulit(-v - 1, 128) if False else '(-((s128)%s))' % ulit(-v, 128)
             return '((s128)%s)' % ulit(v, 128)
+        if op in ('udiv', 'urem', 'sdiv', 'srem', 'mul') and ('i' + op) in self.ctx.uf_float and n <= 64:
+            # relational abstraction of integer multiply/divide (same rationale as for the float operations; mul is commutative)
+            if op != 'mul':
+                self.out.append('LL2C_CHECK(%s != 0, "ub:integer-divide-by-zero");' % b)
+            self.ctx.trusted.add('relational abstraction: integer %s as an uninterpreted function (sound for equalities between two runs)' % op)
+            return self.trunc_to('LL2C_UFI(%s, %d, (u64)%s, (u64)%s)' % (op, n, a, b), n)
         if op in ('add', 'sub', 'mul'):
             c = {'add': '+', 'sub': '-', 'mul': '*'}[op]
             r = self.trunc_to('%s %s %s' % (A, c, B), n)
@@ -419,12 +425,6 @@ class FuncEmitter:
         if op in ('and', 'or', 'xor'):
             c = {'and': '&', 'or': '|', 'xor': '^'}[op]
             return '((%s)(%s %s %s))' % (T, a, c, b)
-        if op in ('udiv', 'urem', 'sdiv', 'srem', 'mul') and ('i' + op) in self.ctx.uf_float and n <= 64:
-            # relational abstraction of integer multiply/divide (same rationale as for the float operations; mul is commutative)
-            if op != 'mul':
-                self.out.append('LL2C_CHECK(%s != 0, "ub:integer-divide-by-zero");' % b)
-            self.ctx.trusted.add('relational abstraction: integer %s as an uninterpreted function (sound for equalities between two runs)' % op)
-            return self.trunc_to('LL2C_UFI(%s, %d, (u64)%s, (u64)%s)' % (op, n, a, b), n)
         if op in ('udiv', 'urem'):
             c = '/' if op == 'udiv' else '%'
             self.out.append('LL2C_CHECK(%s != 0, "ub:integer-divide-by-zero");' % b)
